@@ -315,12 +315,15 @@ def run(chk: Check) -> None:
     for i in range(n_url):
         mm = rng.choice([None, 0, 5, 20, 100])
         n = max(0, (mm if mm is not None else 30) + rng.choice([-3, -1, 0, 1, 2, 50]))
-        body = b"&".join(rng.choice([b"a=1", b"b", b"k=" + b"v" * rng.randint(0, 9), b"%E2%82%AC=x", b"=", b"x=%ff"])
+        # raw (not percent-encoded) UTF-8 is legal in a urlencoded body: multi-byte characters can be cut by a short read
+        body = b"&".join(rng.choice([b"a=1", b"b", b"k=" + b"v" * rng.randint(0, 9), b"%E2%82%AC=x", b"=", b"x=%ff",
+                                     "k=é".encode(), "€=x€y".encode(), "n=\U0001f600".encode(), "ü".encode() * rng.randint(1, 4),
+                                     b"bad=\xff" if rng.random() < 0.15 else b"z=\xc3\xa9"])
                          for _ in range(rng.randint(0, 6)))
         body = (body + b"&pad=" + b"p" * n)[:n] if rng.random() < 0.7 else body
         declared = rng.choice(["exact", "absent", "absent", "smaller", "larger"])
         clen = {"exact": len(body), "absent": None, "smaller": max(0, len(body) - 3), "larger": len(body) + 5}[declared]
-        sched = [rng.choice([0, 1, 2, 7]) for _ in range(rng.randint(0, 6))]
+        sched = [rng.choice([0, 1, 2, 3, 7]) for _ in range(rng.randint(0, 9))]
         st = SchedStream(body, sched)
         try:
             _, form, _ = FormDataParser(max_form_memory_size=mm, silent=False).parse(
@@ -339,14 +342,15 @@ def run(chk: Check) -> None:
         if got.startswith("ok") and mm is not None and len(body) > mm:
             chk.fail("urlencoded-exceeds-limit", f"urlencoded body of {len(body)} bytes parsed with max_form_memory_size={mm} "
                      f"(declared length {clen})", {"body": body.hex(), "mm": mm, "content_length": clen, "sched": sched})
-        if got.startswith("ok"):
+        if got != "X:413":
+            # pure guard, both ways: a limit that is not exceeded changes neither the result nor the exception
             try:
-                ref = list(FormDataParser(silent=False).parse(io.BytesIO(body), "application/x-www-form-urlencoded", None, {})[1].items(multi=True))
+                ref = "ok " + repr(list(FormDataParser(silent=False).parse(io.BytesIO(body), "application/x-www-form-urlencoded", None, {})[1].items(multi=True)))
             except Exception as e:  # noqa: BLE001
-                ref = repr(e)
-            if got != "ok " + repr(ref):
+                ref = "X:" + type(e).__name__
+            if got != ref:
                 chk.fail("limits-change-result", "urlencoded parse under a limit differs from the unlimited parse",
-                         {"body": body.hex(), "mm": mm, "content_length": clen, "limited": got[:200], "unlimited": repr(ref)[:200]})
+                         {"body": body.hex(), "mm": mm, "content_length": clen, "sched": sched, "limited": got[:200], "unlimited": ref[:200]})
         if got == "X:413" and mm is not None and len(body) <= mm and (clen is None or clen <= mm):
             chk.fail("spurious-413", "RequestEntityTooLarge although body and declared length are within the limit",
                      {"body": body.hex(), "mm": mm, "content_length": clen, "sched": sched})
@@ -485,7 +489,10 @@ def run(chk: Check) -> None:
         elif B == "url":
             if b.startswith("ok "):
                 raw = b"" if b[3:] == "-" else bytes.fromhex(b[3:])
-                b = "ok " + repr(_group(parse_qsl(raw.decode(), keep_blank_values=True, errors="werkzeug.url_quote")))
+                try:
+                    b = "ok " + repr(_group(parse_qsl(raw.decode(), keep_blank_values=True, errors="werkzeug.url_quote")))
+                except UnicodeDecodeError:       # body.decode() is strict: the whole body, whatever the reads were
+                    b = "X:UnicodeDecodeError"
             ok = a == b
         else:
             ok = _same_form(a, b, B)
